@@ -336,6 +336,8 @@ Inductive rule :=
 | SameAs (a : attr) (s : src)               (* new a lists exactly the solutions of the source, in order *)
 | Pointwise (a : attr) (s1 s2 : src)        (* new a[i] is s1[i] or s2[i] *)
 | SameLen (a : attr)                        (* len(new a) = len(old a) *)
+| Fresh (a : attr)                          (* no object of new a was exposed (through any attribute) at the previous boundary:
+                                               the step made NEW objects (copy.deepcopy / Solution(problem)), it did not move old ones in place *)
 | NBatches (lo : nat) (hi : option nat).    (* how many evaluate_all calls the step made *)
 
 Inductive algid := AGA | AES | ANSGAII | ANSGAIII | AEpsMOEA | AEpsNSGAII | AGDE3 | ASPEA2 | AMOEAD | AIBEA
@@ -344,6 +346,7 @@ Inductive algid := AGA | AES | ANSGAII | ANSGAIII | AEpsMOEA | AEpsNSGAII | AGDE
 Section Shape.
   Variable S : Type.
   Variable eqb : S -> S -> bool.
+  Variable ident : S -> nat.                  (* object identity *)
   Definition amap := list (attr * list S).
   Fixpoint lookup (a : attr) (m : amap) : list S :=
     match m with [] => [] | (b, l) :: r => if attr_eqb a b then l else lookup a r end.
@@ -367,6 +370,7 @@ Section Shape.
     | SameAs a s => list_eqb eqb (lookup a new) (src_sols old new afters s)
     | Pointwise a s1 s2 => pointwise_b (lookup a new) (src_sols old new afters s1) (src_sols old new afters s2)
     | SameLen a => Nat.eqb (length (lookup a new)) (length (lookup a old))
+    | Fresh a => forallb (fun x => negb (existsb (fun y => Nat.eqb (ident x) (ident y)) (flat_map snd old))) (lookup a new)
     | NBatches lo hi => Nat.leb lo (length afters) && match hi with Some h => Nat.leb (length afters) h | None => true end
     end.
   (* a step conforms when one of the alternatives of its algorithm holds *)
@@ -411,11 +415,11 @@ Definition iter_rules (a : algid) : list (list rule) :=
       [[NBatches 1 (Some 1); Sub A_population [Old A_population; After 0]; SameLen A_population;
         Sub A_archive [Old A_archive; After 0]; result_rule]]
   | APESA2 =>                                                                 (* pesa2_iterate *)
-      [[NBatches 1 (Some 1); SameAs A_population (After 0); Sub A_archive [Old A_archive; After 0]; result_rule]]
-  | AOMOPSO | ASMPSO =>                                                       (* pso_iterate / pso_iterate_flow *)
-      [[NBatches 1 (Some 1); SameAs A_particles (After 0); Pointwise A_local_best (New A_particles) (Old A_local_best);
+      [[NBatches 1 (Some 1); SameAs A_population (After 0); Fresh A_population; Sub A_archive [Old A_archive; After 0]; result_rule]]
+  | AOMOPSO | ASMPSO =>                                                       (* pso_iterate / pso_iterate_flow; pso_move: D_move = a deep copy *)
+      [[NBatches 1 (Some 1); SameAs A_particles (After 0); Fresh A_particles; Pointwise A_local_best (New A_particles) (Old A_local_best);
         Sub A_leaders [Old A_leaders; New A_particles]; Sub A_archive [Old A_archive; New A_particles]; result_rule]]
   | ACMAES =>                                                                 (* cmaes_iterate *)
-      [[NBatches 1 (Some 1); Sub A_population [After 0]; SameLen A_population;
+      [[NBatches 1 (Some 1); Sub A_population [After 0]; SameLen A_population; Fresh A_population;
         Sub A_archive [Old A_archive; After 0]; result_rule]]
   end.
